@@ -229,6 +229,12 @@ def constants_module(rng):
     lines.append("struct Consts:")
     lines.append("  0 [+8]  Int  tag")
     lines.append("  0 [+8]  UInt  utag")
+    lines += ["  0 [+4]  UInt  u32", "  0 [+2]  UInt  u16", "  0 [+4]  Int  i32", "  0 [+1]  Int  i8"]
+    # `?:` whose condition is a compile-time constant: the result has the range of the selected branch only
+    for j in range(rng.randint(1, 4)):
+        cnd = rng.choice(["true", "false", "(2 > 1)", "(1 == 2)", "(255 >= 256)"])
+        a, b = rng.sample(["u32", "u16", "i32", "i8", "(-1)", "(-2147483649)", "4294967296", "0", "(u16 + 1)", "(i8 - 1)"], 2)
+        lines.append("  let ch%d = %s ? %s : %s" % (j, cnd, a, b))
     off = 8
     for i in range(rng.randint(3, 9)):
         v = edge_value(rng)
